@@ -1354,6 +1354,7 @@ impl Interp {
                 (Req::ListTopicSubs { topic: t.name(), size: *size, token: String::new() }, vec![])
             }
             Op::Publish { t, n, payload, .. } => self.build_publish(t.name(), *n as u32, payload),
+            Op::PublishMany { t, n, .. } => self.build_publish(t.name(), *n, &Payload::plain()),
             Op::Pull { s, max, ri, .. } => {
                 self.note_names(Some(&s.name()), None);
                 (Req::Pull { sub: s.name(), max: *max, ri: *ri }, vec![])
@@ -1547,6 +1548,10 @@ pub fn run_case(case: &Case, cfg: &RunCfg) -> Trace {
         .enable_time()
         .start_paused(true)
         .rng_seed(tokio::runtime::RngSeed::from_bytes(&seed_bytes))
+        // one case in three lets the time driver run between any two task polls, so that a
+        // timer that has become due can fire before a task that was woken earlier is polled
+        // (otherwise timers only fire when nothing is runnable)
+        .event_interval(if case.sched_seed % 3 == 0 { 1 } else { 61 })
         .build()
         .unwrap();
     // schedule points
